@@ -22,6 +22,9 @@ ATOMS = [
     "", "a", "A", "1", "1.0", "TRUE", "'", "a b",
     ("date", "20200101000000"), ("date", "20200101120000"),
     ("date", "19991231000000"),
+    # two instants inside one second, and a year below 1000
+    ("date", "20200101000000.250000"), ("date", "20200101000000.750000"),
+    ("date", "09990101000000"),
     ("pat", "a"), ("pat", "1"),
 ]
 S = [1, 1.0, 0, -0.0, "a", "1", None, True]
